@@ -61,4 +61,22 @@ TEXT = {
   note='Trusted: Coq kernel; harness stores; request entries are generated with consecutive indices (the handler itself does not check this). F3 (InstallSnapshot leaves a stale cached tail) is outside this handler.',
   technique='Coq proof (induction over the request entries) + exhaustive bounded differential enumeration of appendEntries',
  ),
+ 'C01': dict(
+  level='Machine-checked theorems (Coq): every server grants at most one candidate per term over ANY history of RPCs, store failures and crash cuts (from C06, on the node model tied to the code); '
+        'strict majorities of one voter set, and of two successive configurations, intersect; quorumSize is a strict majority; hence two candidates holding quorumSize distinct grants in one term are one '
+        'candidate (C01_two_quorums_one_candidate, also across one membership change). PARTIAL: the cluster-level statement "no reachable cluster state has two leaders in a term" is not yet a theorem over a '
+        'composed cluster step relation (candidate tally loop + network as a Coq model); it is checked on real histories: election-race scenarios with held/duplicated/lost messages, crash cuts and restarts, '
+        'with the monitor grouping Leader observations and AppendEntries/InstallSnapshot senders by term. The node model (requestVote, electSelf, TimeoutNow, role transitions) is diffed against real servers.',
+  note='Trusted: Coq kernel; harness (scripted network, stores). Cluster histories are sampled schedules of real goroutines.',
+  technique='Coq proof (per-server vote uniqueness over histories + quorum intersection) + differential node sequences + monitored real-cluster election races',
+ ),
+ 'C14': dict(
+  level='Machine-checked theorems (Coq) over the model of runCandidate + handlers: with pre-vote enabled and a configuration needing >= 2 votes, ANY number of election timeouts and ANY sequence of failed/refused '
+        'pre-vote answers produce no durable write at all, so the term never grows (C14_isolated_term_constant); the term bump starts only on a granted pre-vote completing the quorum; a pre-vote request changes nothing, '
+        'is refused while a leader is known and is granted only to a log that is not behind; a RequestVote without the transfer flag is refused without state change while a leader is known. '
+        'Tie: the real main loop with scripted peers (every pre-vote/vote answer chosen by the script, forced election timeouts) diffed against the model; node sequences; real clusters with real timers. '
+        'PARTIAL: how long a reconnected server takes to hear the leader, and the behaviour of mixed pre-vote/non-pre-vote clusters ("unexpected command" counted as a grant is modelled in the transport script but not covered by the theorem), are runtime/measured.',
+  note='Trusted: Coq kernel; the scripted transport and the election-timeout hook; Go scheduler delivering each released answer to the loop before the next one (1.5 ms apart).',
+  technique='Coq proof (invariant over candidate sessions) + differential correspondence of the real candidate loop with scripted peers + monitored real-timer clusters',
+ ),
 }
